@@ -69,7 +69,7 @@ func run(r *hx.Run) error {
 	}
 	n := 60
 	if r.Thorough {
-		n = 600
+		n = 400
 	}
 	for i := 0; i < n; i++ {
 		rng := h.rng.Fork(uint64(i))
